@@ -87,7 +87,8 @@ def session_cases(files, count, seed):
         for _ in range(rng.choice([0, 0, 1, 2])):
             s = rng.choice(["module", "smbios", "custom"] + slots)
             seq.insert(rng.randrange(len(seq) + 1), rng.choice(tpl[s]))
-        calls = [{"op": "b_new", "default": len(seq) % 2 == 1}] + seq + [{"op": "b_build"}, {"op": "use_built", "which": "info"}, {"op": "load"},
+        calls = [{"op": "b_new", "default": len(seq) % 2 == 1}] + seq + [{"op": "b_build"}, rng.choice([{"op": "use_built", "which": "info"}, {"op": "use_built", "which": "info", "res": 0},
+                                                                                {"op": "use_built", "which": "info", "res": 8}]), {"op": "load"},
                                           {"op": "tags", "it": 0}] + [{"op": "next", "it": 0}] * (len(seq) + 3)
         present = {c["slot"] for c in seq}
         for kind in sorted(present | set(rng.sample(sorted(reads), 3))):
@@ -123,7 +124,8 @@ def hsession_cases(files, count, seed):
         for _ in range(rng.choice([0, 0, 1, 2])):
             s = rng.choice(slots)
             seq.insert(rng.randrange(len(seq) + 1), rng.choice(tpl[s]))
-        calls = [{"op": "hb_new", "arch": rng.choice([0, 4])}] + seq + [{"op": "hb_build"}, {"op": "use_built", "which": "header"}, {"op": "hload"}]
+        calls = [{"op": "hb_new", "arch": rng.choice([0, 4])}] + seq + [{"op": "hb_build"}, rng.choice([{"op": "use_built", "which": "header"}, {"op": "use_built", "which": "header", "res": 0},
+                                                                                                      {"op": "use_built", "which": "header", "res": 8}]), {"op": "hload"}]
         calls += [{"op": "hacc", "f": f} for f in ("header_magic", "arch", "length", "checksum", "verify_checksum")]
         calls += [{"op": "htags", "it": 0}, {"op": "count", "it": 0}] + [{"op": "next", "it": 0}] * (len(seq) + 3)
         for kind in sorted(reads):
